@@ -91,40 +91,22 @@ theorem den_mulVec (m : CSM K) (v r : Vec K)
     (h : mulVec m v = .ok r) :
     r.dim = m.major ∧
     ∀ i, denE r.entries i = ∑ j ∈ Finset.range m.minor, denM m.rows i j * denE v.entries j := by
-  unfold mulVec CSM.dim at h
-  by_cases hsq : m.major = m.minor
-  · by_cases hd : m.major = v.dim
-    · simp only [hsq, hd, ne_eq, not_true_eq_false, if_false] at h
-      rw [← hd, hsq] at h
-      cases h
-      refine ⟨hsq.symm, fun i => ?_⟩
-      have hv' : WF m.minor v.entries := by rw [← hsq, hd]; exact hv
-      simp only
-      rw [den_mulVecEntries, vecDot_eq_finset_sum (wf_getD hrows i) hv'.1]
-      rfl
-    · simp [hsq] at h
-      have : ¬ m.minor = v.dim := by rw [← hsq]; exact hd
-      simp [this] at h
-  · simp [hsq] at h
+  obtain ⟨hsq, hd, rfl⟩ := mulVec_ok_inv h
+  refine ⟨rfl, fun i => ?_⟩
+  have hv' : WF m.minor v.entries := by rw [← hsq, hd]; exact hv
+  simp only
+  rw [den_mulVecEntries, vecDot_eq_finset_sum (wf_getD hrows i) hv'.1]
+  rfl
 
 /-- `MulVec`: the result is well-formed for the matrix dimension (strictly increasing indices,
     all `< m.major`) and stores no explicit zero. -/
 theorem wf_mulVec (m : CSM K) (v r : Vec K) (hlen : m.rows.length = m.major)
     (h : mulVec m v = .ok r) :
     r.dim = m.major ∧ WF r.dim r.entries ∧ ∀ e ∈ r.entries, e.val ≠ 0 := by
-  unfold mulVec CSM.dim at h
-  by_cases hsq : m.major = m.minor
-  · by_cases hd : m.major = v.dim
-    · simp only [hsq, hd, ne_eq, not_true_eq_false, if_false] at h
-      rw [← hd] at h
-      cases h
-      refine ⟨rfl, ?_, fun e he => (mem_mulVecEntries he).2.2⟩
-      simp only
-      rw [← hlen]; exact wf_mulVecEntries _ _
-    · simp [hsq] at h
-      have : ¬ m.minor = v.dim := by rw [← hsq]; exact hd
-      simp [this] at h
-  · simp [hsq] at h
+  obtain ⟨hsq, hd, rfl⟩ := mulVec_ok_inv h
+  refine ⟨rfl, ?_, fun e he => (mem_mulVecEntries he).2.2⟩
+  simp only
+  rw [← hlen]; exact wf_mulVecEntries _ _
 
 /-- The product loop itself: strictly increasing indices below the number of rows. -/
 theorem wf_mulVecEntries (rows : List (Row K)) (v : List (Entry K)) :
@@ -258,6 +240,9 @@ end errors
 /-! ## non-vacuity: concrete inputs over ℚ satisfying the hypotheses -/
 
 section examples
+-- at `ℚ` both `ratScalar` (driver) and `fieldScalar` (proofs) apply; the theorems speak about
+-- `fieldScalar`, so select it here.
+attribute [local instance 10000] fieldScalar
 
 /-- `u = (1, 0, 2, 0)`, `w = (0, 3, -2, 0)` as sparse vectors of dimension 4 -/
 private def u : Vec ℚ := ⟨4, [⟨0, 1⟩, ⟨2, 2⟩]⟩
